@@ -5156,6 +5156,10 @@ impl GlobalInferenceCtx<'_> {
                                     Ty::Unknown.into()
                                 }
                             } else {
+                                // a comptime block that does not yield a type
+                                // (`x : comptime { 5 } = 1;`, `y :: ?comptime 1;`)
+                                self.report_non_type(expr, ty);
+
                                 Ty::Unknown.into()
                             }
                         }
